@@ -51,7 +51,8 @@ class Scenario:
         cfg = self.cfg
         res = self.res
         pool = bp.Pool(cfg.get('procs', 2), context=vproc.VPoolContext(),
-                       threads=True, **cfg.get('pool', {}))
+                       threads=cfg.get('threads', True),
+                       **cfg.get('pool', {}))
         self.pool = pool
         handles = []
         res['handles'] = handles
@@ -77,6 +78,14 @@ class Scenario:
             elif op == 'sleep':
                 import time
                 time.sleep(float(arg))
+            elif op == 'pump':
+                # an embedder without helper threads drives the handlers
+                import time
+                for _ in range(int(arg or 5)):
+                    while pool._outqueue._reader.poll(0):
+                        pool.handle_result_event()
+                    pool.maintain_pool()
+                    time.sleep(0.2)
             elif op == 'close':
                 pool.close()
             elif op == 'join':
